@@ -268,6 +268,14 @@ def r5(ctx):
                 appended = [n for n in nodes if isinstance(n, ast.Call) and norm(n.func) == "taglist.append" and n.args and isinstance(n.args[0], ast.Call) and norm(n.args[0].func) in ("OpeningTag", "ClosingTag")]
                 ok = ok and len(appended) == 2
             ctx.check("%s.encode:open-close-paired" % cname, ok, where(m, enc), "a path through the element loop opens %d and closes %d groups: %s" % (len(opens), len(closes), p.describe()[:200]))
+            # a pass of the element loop that emits nothing is taken only for an absent value (None): a present value - an
+            # empty list is one, its opening/closing pair is what tells "no items" from "not given" - is always encoded
+            if not encs:
+                from ..guards import conjuncts as _conj
+                held = {(norm(a).replace("(", "").replace(")", ""), pl) for t_, pol_ in p.conds() for a, pl in _conj(t_, pol_)}
+                absent = ("value is None", True) in held or ("value is not None", False) in held or ("value == None", True) in held
+                ctx.check("%s.encode:only-absent-skipped" % cname, absent, where(m, enc),
+                          "a pass through the element loop emits nothing although the element's value is not None: %s" % p.describe()[:240])
             # context atomic: app_to_context(element.context)
             conv = [n for n in nodes if isinstance(n, ast.Call) and isinstance(n.func, ast.Attribute) and n.func.attr == "app_to_context"]
             for cv in conv:
